@@ -10,7 +10,10 @@ functions `ins`, `del`, `union`, `inter`, `diff`, `symm` below, whose set meanin
     roaring op; any other `Duplex` → element-wise fallback; neither → the switch has no default: nothing happens;
   * the fallback loops: `Or` = `operand.Each` + `s.Add`; `Xor` = copy built through `operand.Each`, then native
     `Xor`; `And`/`AndNot` = `s.Each` over the RECEIVER while calling `s.Remove` on it;
-  * the thread-safe wrappers: every method is `lock; delegate; unlock` on a non-reentrant mutex.
+  * the thread-safe wrappers (non-reentrant mutex): every method is `lock; delegate; unlock`; a binary operation first
+    replaces an operand that is itself a wrapper by a private copy taken under the OPERAND's lock
+    (`snapshotOperand`, hooks/C13-fix2.patch) — `snap = false` is lock.go before that patch, where the fallback read a
+    wrapper operand while the receiver's lock was held (self operand and ABBA deadlocks, F12).
 
 `And`/`AndNot` iterate the receiver while removing from it.  The roaring iterator is a cursor into the live
 container structure, so its behaviour under removal is modelled as such (`Cur32`, `Cur64`):
@@ -385,12 +388,36 @@ inductive Res where
   | ok | deadlock
 deriving DecidableEq, Repr, Inhabited
 
-/-- wrapper method = `s.lock.Lock(); defer s.lock.Unlock(); s.provider.M(…)`; plain bitmap = the method. -/
-def Prov.binop (fixed : Bool) (p : Prov) (op : BinOp) (o : Operand) : Prov × Res :=
+/-- `snapshotOperand(other)` (lock.go with hooks/C13-fix2.patch), called by a wrapper's binary operation BEFORE it
+takes its own lock: a wrapper operand — the receiver itself included — is replaced by a private plain copy taken
+under the operand's lock; `none` = that lock can never be acquired. `self` = the receiver's own content. -/
+def snapshotOperand (self : S) : Operand → Option Operand
+  | .wrapper locked o => if locked then none else some (.bitmap o)
+  | .selfWrapper => some (.bitmap self)
+  | o => some o
+
+/-- binary operation of a provider. Plain bitmap = the method. Wrapper, `snap = true` (live):
+`other = snapshotOperand(other); s.lock.Lock(); defer s.lock.Unlock(); s.provider.M(other)`; `snap = false` (before
+hooks/C13-fix2.patch): `s.lock.Lock(); defer s.lock.Unlock(); s.provider.M(other)`. -/
+def Prov.binop (fixed snap : Bool) (p : Prov) (op : BinOp) (o : Operand) : Prov × Res :=
   if p.wrapped && p.locked then (p, .deadlock)
+  else if p.wrapped && snap then
+    match snapshotOperand p.set o with
+    | none => (p, .deadlock)                       -- blocked before the own lock is taken
+    | some o' => match bitmapBinop fixed p.width op p.set o' with
+      | some s' => ({ p with set := s' }, .ok)
+      | none => ({ p with locked := true }, .deadlock)
   else match bitmapBinop fixed p.width op p.set o with
     | some s' => ({ p with set := s' }, .ok)
     | none => ({ p with locked := p.wrapped }, .deadlock)
+
+/-- which path the inner bitmap's type switch takes for this receiver/operand pairing -/
+def Prov.pathFor (snap : Bool) (p : Prov) (o : Operand) : Path :=
+  if p.wrapped && snap then
+    match snapshotOperand p.set o with
+    | some o' => switchPath o'
+    | none => .none
+  else switchPath o
 
 /-- every other method: `none` = blocked in `Lock()`; otherwise the delegate's result -/
 def Prov.guard (p : Prov) (f : S → α) : Option α := if p.wrapped && p.locked then none else some (f p.set)
@@ -412,6 +439,10 @@ def Prov.clone (p : Prov) : Option Prov := p.guard (fun s => { p with set := s, 
 /-- default of the model driver: `false` = /repo as it is (F1 present); set to `true` once hooks/C13-fix.patch is
 committed (the op line `mode fixed|current` overrides it per case). -/
 def liveFixed : Bool := true
+
+/-- default wrapper protocol of the model driver: `true` = snapshot-then-lock (hooks/C13-fix2.patch); the op line
+`mode snapshot|nosnapshot` overrides it per case -/
+def liveSnapshot : Bool := true
 
 /-- the completely-full-chunk flag (run containers), recomputed after a mutation -/
 def hasFullChunk (w : Width) (s : S) : Bool :=
